@@ -3,9 +3,9 @@ CONSTANTS
   Props = {"A", "A2", "B"}
   Others = {2, 3}
   KThr = 2
-  MaxDup = 0
+  MaxDup = 1
   MaxLen = 5
   MaxTimeouts = 1
-  MaxForged = 1
+  MaxForged = 2
 INVARIANTS TypeOK FinalisedAtMostOncePerBlock OneBlockPerProposalKey OnlySharesForTheBlock LateSharesCount
 CHECK_DEADLOCK FALSE
